@@ -102,7 +102,8 @@ def build_corpus(tier, rng):
         has_default = any(v["default"] for v in info["variants"])
         trans = [v for v in it.variants if v.has("transparent")]
         derives = ["Display"]
-        if not trans:
+        # EnumString reads `transparent` as nothing at all: such a variant parses from its own name like any other (payload from Default)
+        if not trans or all(v.fields[0].ty in ("String", "u8", "i32", "Wrap", "Box<str>") for v in trans):
             derives.insert(0, "EnumString")
         if trans and all(RR.is_string_ty(v.fields[0].ty) for v in trans):
             derives.append("AsRefStr")
